@@ -41,6 +41,41 @@ class C20(E1Prop):
         super().begin(w, rng)
         self.queue_entry = []   # PR ids in the order they were queued
 
+    def next_op(self, w, rng, step, nsteps):
+        if step == 0:
+            self.script = []
+            if w.use_queue and rng.random() < 0.35:
+                # story: several PRs enter the queue in an order of their
+                # own, then an admin job is issued
+                dests = ops.dest_branches(w.cfg)
+                n = rng.choice([2, 2, 3])
+                seq = []
+                for i in range(n):
+                    seq.append({'op': 'open_pr', 'actor': rng.choice(
+                        ['alice', 'bob']), 'src': 'bugfix/TEST-%d' % (
+                        700 + i), 'dst': rng.choice(dests), 'kind': 'new'})
+                for i in range(n):
+                    seq.append({'op': 'eval', 'p': i})
+                seq.append({'op': 'ci_green_all', 'which': ['src', 'w']})
+                order = list(range(n))
+                rng.shuffle(order)
+                for i in order:
+                    seq.append({'op': 'eval', 'p': i})
+                job = rng.choice(['rebuild_queues', 'rebuild_queues',
+                                  'create_branch', 'delete_queues'])
+                api = {'op': 'api', 'job': job}
+                if job == 'create_branch':
+                    api['kwargs'] = {'branch': 'development/%d.%d' % (
+                        rng.choice([11, 12, 3]), rng.choice([0, 1]))}
+                seq.append(api)
+                seq.append({'op': 'deliver_all'})
+                for o in seq:
+                    o['dt'] = rng.choice([1, 5, 30])
+                self.script = seq
+        if getattr(self, 'script', None):
+            return self.script.pop(0)
+        return self.gen.next(w)
+
     def check_job(self, w, rec):
         before, after = rec['refs_before'], rec['refs_after']
         if rec['status'] == 'Queued':
